@@ -4,6 +4,9 @@
  *   O = blast returned, P = perm_partialline, R = temp_read (a read failed), D = dropped() (a write failed), T = any other exit
  *   wire = concatenation of everything the socket took (also for P/R/D: what had been flushed before the exit),
  *   buffered = smtptobuf[0..smtpto.p) at that moment, nwrites = number of write() calls on the socket.
+ * envelope mode (session 4): stdin line "E <sender-hex> <rcpt-hex> <msg-hex>" (also generated, see main) runs the program's own
+ *   addrmangle() on the two argv strings and then its smtp() against a scripted server (timeoutread.o replaced as well); output
+ *   "E <sender> <rcpt> <msg> <K|P|T> <seg,seg,...>", one seg per write() on the socket.
  * <plan> (one token) = <rplan>[/<wplan>[/<ibuf>,<obuf>]]: how read() of the message file and write() to the socket behave. Each
  *   plan is a comma-separated list of caps used cyclically, one per call (0 = no cap, e = the call fails with EIO; in the
  *   read plan also i = the call is interrupted, -1/EINTR, nothing transferred: the same bytes are there for the retry).
@@ -32,6 +35,12 @@ extern substdio ssin, smtpto;      /* the program's own, as initialised by qmail
 extern int smtpfd;
 extern void blast(void);
 #define SMTPFD 9
+/* envelope mode (session 4): the program's own smtp() and addrmangle(), its sender / reciplist / helohost */
+#include "stralloc.h"
+extern void smtp(void);
+extern void addrmangle(stralloc *, char *);
+extern stralloc sender, helohost;
+extern struct { stralloc *sa; unsigned int len; unsigned int a; } reciplist;
 
 /* the program's writable data (sections made by prog_object): snapshot at start, restore before every case */
 extern char __start_pd_qr[] __attribute__((weak)), __stop_pd_qr[] __attribute__((weak));
@@ -116,6 +125,8 @@ void __wrap__exit(int c) {
   __real__exit(c);
 }
 /* replaces timeoutwrite.o: the socket, taking what the write plan says */
+#define MAXSEG 64
+static size_t segend[MAXSEG]; static int nseg;      /* envelope mode: where each write() on the socket ended */
 ssize_t timeoutwrite(int t, int fd, const void *buf, size_t len) {
   if (fd != SMTPFD) { errno = EBADF; return -1; }
   int c = wplan[wplan_k++ % wplan_n];
@@ -124,6 +135,19 @@ ssize_t timeoutwrite(int t, int fd, const void *buf, size_t len) {
   size_t k = len;
   if (c > 0 && k > (size_t)c) k = c;
   hbuf_add(&outb, buf, k);
+  if (nseg < MAXSEG) segend[nseg++] = outb.n;
+  return k;
+}
+/* replaces timeoutread.o (envelope mode): the scripted server - greeting 220, then 250 to everything except 354 to DATA
+ * (the 5th reply with one recipient); one whole reply per read */
+static long srv_k;
+ssize_t timeoutread(int t, int fd, char *buf, size_t len) {
+  if (fd != SMTPFD) { errno = EBADF; return -1; }
+  const char *r = srv_k == 0 ? "220 srv ESMTP\r\n" : srv_k == 4 ? "354 go ahead\r\n" : "250 ok\r\n";
+  srv_k++;
+  size_t k = strlen(r);
+  if (k > len) k = len;
+  memcpy(buf, r, k);
   return k;
 }
 
@@ -151,6 +175,39 @@ static void onep(const unsigned char *m, size_t n, const char *tok) {
   h_hex((unsigned char *)smtpto.x, smtpto.p > 0 && smtpto.p <= own_obuf ? smtpto.p : 0);
   fputc('\n', h_out);
 }
+/* envelope case: what main() does with argv[2] / argv[3] (addrmangle into sender / reciplist), then the program's smtp()
+ * against the scripted server, message `m` on descriptor 0.  Output:
+ *   E <sender-hex> <rcpt-hex> <msg-hex> <K|P|T> <seg,seg,...>     seg = the bytes of one write() on the socket, in order */
+static void envcase(const char *snd, const char *rcp, const unsigned char *m, size_t n) {
+  static stralloc rl[1]; static char hh[2] = "h";
+  prog_restore();
+  smtpfd = SMTPFD;
+  rplan[0] = 0; rplan_n = 1; wplan[0] = 0; wplan_n = 1;
+  in_p = m; in_n = n; in_pos = 0; rplan_k = wplan_k = nwrites = 0; nseg = 0; srv_k = 0;
+  hbuf_reset(&outb); hbuf_reset(&repb);
+  helohost.s = hh; helohost.len = 1; helohost.a = 2;     /* getcontrols(): control/helohost */
+  char st = 'T';
+  char *s2 = strdup(snd), *r2 = strdup(rcp);
+  in_case = 1;
+  if (setjmp(h_jb) == 0) {
+    addrmangle(&sender, s2);
+    memset(rl, 0, sizeof rl);
+    reciplist.sa = rl; reciplist.len = 0; reciplist.a = 1;
+    addrmangle(reciplist.sa + reciplist.len, r2);
+    ++reciplist.len;
+    smtp();
+  } else {
+    if (memmem(repb.p, repb.n, " accepted message", 17)) st = 'K';
+    else if (memmem(repb.p, repb.n, "partial final line", 18)) st = 'P';
+  }
+  in_case = 0;
+  free(s2); free(r2);
+  fprintf(h_out, "E "); h_hex((const unsigned char *)snd, strlen(snd)); fputc(' ', h_out);
+  h_hex((const unsigned char *)rcp, strlen(rcp)); fputc(' ', h_out); h_hex(m, n); fprintf(h_out, " %c ", st);
+  if (nseg == 0) fputc('-', h_out);
+  for (int i = 0; i < nseg; i++) { size_t a = i ? segend[i - 1] : 0; if (i) fputc(',', h_out); h_hex(outb.p + a, segend[i] - a); }
+  fputc('\n', h_out);
+}
 static void one(const unsigned char *m, size_t n, int chunk) { char t[24]; snprintf(t, sizeof t, "%d", chunk); onep(m, n, t); }
 
 static int unhex(const char *h, unsigned char *o) {
@@ -167,6 +224,14 @@ int main(int argc, char **argv) {
     h_init_out();
     while (fgets(line, sizeof line, stdin)) {
       char tok[800]; static char hx[400000];
+      if (line[0] == 'E' && line[1] == ' ') {                 /* E <sender-hex> <rcpt-hex> <msg-hex> : envelope case */
+        static char h1[4000], h2[4000], h3[4000]; static unsigned char a1[2001], a2[2001], a3[2001];
+        if (sscanf(line + 2, "%3999s %3999s %3999s", h1, h2, h3) != 3) continue;
+        int n1 = unhex(h1, a1), n2 = unhex(h2, a2), n3 = unhex(h3, a3);
+        a1[n1] = 0; a2[n2] = 0;                               /* argv strings: what follows a NUL does not exist */
+        envcase((char *)a1, (char *)a2, a3, n3);
+        continue;
+      }
       if (sscanf(line, "%799s %s", tok, hx) != 2) continue;
       onep(b, unhex(hx, b), tok);
     }
@@ -276,6 +341,49 @@ int main(int argc, char **argv) {
       }
     }
     free(b);
+  }
+  /* envelope commands (session 4): addresses as argv strings through the program's addrmangle() and smtp() */
+  {
+    static const unsigned char ea[8] = { 'a', '@', '.', '\r', '\n', '"', '\\', ' ' };
+    static const unsigned char msg1[] = "a\n.\n", msg2[] = "x";
+    char a[600]; uint64_t eid = 0;
+    int el = maxlen >= 12 ? 5 : 4;
+    /* every string over {a @ . CR LF " \ SP} up to length el, as sender and as recipient */
+    for (int len = 0; len <= el; len++) {
+      uint64_t total = 1; for (int i = 0; i < len; i++) total *= 8;
+      for (uint64_t k = 0; k < total; k++, eid++) {
+        if ((int)(eid % nshards) != shard) continue;
+        uint64_t v = k; for (int i = 0; i < len; i++) { a[i] = ea[v & 7]; v >>= 3; } a[len] = 0;
+        envcase(a, "r@h", msg1, 4);
+        envcase("s@h", a, msg1, k % 7 == 0 ? 0 : 4);
+      }
+    }
+    /* every byte value 1..255 at the start, in the middle and at the end of the box, and in the host part */
+    for (int c = 1; c < 256; c++, eid++) {
+      if ((int)(eid % nshards) != shard) continue;
+      snprintf(a, sizeof a, "%cbc@h.example", c); envcase(a, "r@h", msg1, 4);
+      snprintf(a, sizeof a, "b%cc@h.example", c); envcase("s@h", a, msg1, 4);
+      snprintf(a, sizeof a, "bc%c@h.example", c); envcase(a, a, msg1, 4);
+      snprintf(a, sizeof a, "bc@h%c.example", c); envcase(a, "r@h", msg2, 1);
+      snprintf(a, sizeof a, "b%cc", c); envcase("", a, msg1, 4);
+    }
+    /* random addresses: mostly ordinary, with CR / LF / quotes / backslashes / '@' / NUL-adjacent bytes (1, 255) sprinkled in,
+     * now and then a whole injected command after CR LF */
+    for (int r = 0; r < nrandom / 4 + 16; r++, eid++) {
+      if ((int)(eid % nshards) != shard) continue;
+      char b[2][600];
+      for (int w = 0; w < 2; w++) {
+        int n = h_below(8) == 0 ? (int)h_below(400) : (int)h_below(24), o = 0, dirty = h_below(3) == 0;
+        for (int i = 0; i < n; i++) {
+          uint32_t x = h_below(dirty ? 12 : 40);
+          b[w][o++] = x == 0 ? '@' : x == 1 ? '.' : (dirty && x == 2) ? '\r' : (dirty && x == 3) ? '\n' : (dirty && x == 4) ? '"' :
+                      (dirty && x == 5) ? '\\' : (dirty && x == 6) ? (h_below(2) ? 1 : 255) : (dirty && x == 7) ? (char)(1 + h_below(255)) : 'a' + x % 26;
+        }
+        if (dirty && h_below(4) == 0) o += snprintf(b[w] + o, 40, "@h\r\nRCPT TO:<v@x");
+        b[w][o] = 0;
+      }
+      envcase(b[0], b[1], msg1, 4);
+    }
   }
   fflush(h_out);
   return 0;
